@@ -65,6 +65,17 @@ def run_xv(prof, args, out_path, timeout=900):
     """run the harness; a crash of the harness itself is a tool error, never a violation"""
     cmd = [xv_path(prof)] + args + ["--out", out_path]
     rc, out = run(cmd, timeout)
+    side = out_path + ".crash"
+    if rc == 3 and os.path.exists(side):
+        # the crate under test crashed the process (unexplained fault): data, like a panic.  Keep the complete
+        # lines recorded so far and append the crash record as an event (rejected by every trace specification).
+        data = open(out_path, "rb").read() if os.path.exists(out_path) else b""
+        data = data[:data.rfind(b"\n") + 1]
+        with open(out_path, "wb") as f:
+            f.write(data + open(side, "rb").read())
+        os.remove(side)
+        log("harness: the process crashed while driving the crate; recorded as a crash event")
+        return out
     if rc != 0:
         sys.stderr.write(out[-4000:])
         raise ToolError("harness exited %d: %s" % (rc, " ".join(cmd)))
